@@ -188,7 +188,7 @@ def random_case(rng):
     if bad < 0.05 and names:
         decls[rng.randrange(len(decls))] = ('e', 'u0', [('r', 'nowhere')])
         names = names + ['u0']
-    attrs_all = ['a', 'b', 'p:c', 'd']
+    attrs_all = ['a', 'b', 'p:c', 'c', 'd']
     nl = rng.randint(0, 3)
     lists = []
     for _ in range(nl):
